@@ -6,7 +6,9 @@ is written and `apply` then returns Err (validate-then-mutate, or work on a clon
 and commit by one final assignment).  The graph layer (removal of the rejected
 entry and its dependents by Dag::prune_by) is checked only structurally: the
 evaluate closure breaks exactly on invalid signatures or on apply errors, and
-applies each entry once."""
+applies each entry once.  SWALLOW: wherever a step's error is ignored and
+evaluation goes on (e.g. `Err(Redacted) => {}` in Identity::op), the step never
+returns one of the ignored errors after having written to the state."""
 import re
 
 from .. import cfg, rules, flow
@@ -42,6 +44,11 @@ def run(ctx):
             ctx.violated(key, "%s::apply is not transactional: state reachable through &mut self is written and an error may be returned afterwards "
                               "(a rejected change leaves a partial effect)" % ty, wit["where"], detail=wit["chain"], fn=f)
             ctx.sample({"type": ty, "dirty_err": True, "witness": wit["chain"][:4]})
+
+    # errors that are ignored must come from steps that left no partial effect
+    from .. import swallow
+    nsw = swallow.check(ctx, swallow.cob_functions(db), "swallow", "ignored step error")
+    ctx.floor("swallow:sites", nsw, 1, "sites where a step's error is ignored and evaluation continues")
 
     # evaluate closure
     ev = db.one(r"^radicle_cob::change_graph::ChangeGraph::evaluate$")
